@@ -9,7 +9,7 @@ Definition ventry := (ns * path * Z * Z * bool * Z)%type.   (* ns, path, kind co
 
 Fixpoint key_of (tbl : list (Z * Z)) (b : Z) : Z :=
   match tbl with
-  | [] => b
+  | [] => if b <=? -1000 then 0 else b
   | (k, v) :: r => if k =? b then v else key_of r b
   end.
 
